@@ -447,12 +447,35 @@ extracted program computes the model's decision table for ALL inputs — so a ma
 deferred marker is installed BEFORE the request runs, the request runs once, `succ` is set iff `acceptable(err)`,
 the marker fires on return and on unwinding alike, the request's error is returned). -/
 theorem tie_progDoReq (v : Verdict) (e : Entry) (o : Outcome) :
-    Prog.runDoReq progDoReq v e o = some (doReqEvents v e o) := by
+    Prog.runDoReq progAccept progDoReq v e o = some (doReqEvents v e o) := by
   rcases e with ⟨hf, cu⟩
   cases v <;> cases hf <;> cases cu <;> cases o <;> decide
 
+/-- the path through `accept()` from the three decisions as Booleans -/
+def pathOfBools (throttled forced drawLess : Bool) : Path :=
+  if !throttled then .free else if forced then .forced else if drawLess then .drawnDrop else .drawnPass
+
+theorem acceptPath_eq_pathOfBools (lastPass now : Nat) (throttled drawLess : Bool) :
+    acceptPath lastPass now throttled drawLess
+      = pathOfBools throttled (decide (lastPass > 0 ∧ now - lastPass > forcePassNs)) drawLess := by
+  unfold acceptPath pathOfBools
+  cases throttled <;> cases drawLess <;> by_cases h : lastPass > 0 ∧ now - lastPass > forcePassNs <;> simp [h]
+
+/-- **`accept()` as extracted, for every value of its three decisions**: the verdict, WHERE `lastPass` is set (exactly
+once on the forced probe and on the drawn admission, never on a free pass and never on a rejection) and whether a draw
+is consumed (exactly on the two drawn paths) are those of the model's `Path` — the order of the tests included. -/
+theorem tie_progAccept (throttled forced drawLess : Bool) :
+    Prog.runAccept progAccept throttled forced drawLess
+      = some ((pathOfBools throttled forced drawLess).verdict,
+              (if (pathOfBools throttled forced drawLess).setsLastPass then 1 else 0),
+              (if (pathOfBools throttled forced drawLess).draws then 1 else 0)) := by
+  cases throttled <;> cases forced <;> cases drawLess <;> decide
+
+/-- `accept()` itself records nothing, on any path: no marker call occurs in its body -/
+theorem tie_acceptRecordsNothing : Prog.marksIn progAccept = [] := by decide
+
 /-- `googleBreaker.allow`: rejected → markDrop and `(nil, err)`; admitted → a promise, nothing recorded yet. -/
-theorem tie_progAllow (v : Verdict) : Prog.runAllow progAllow v = some (allowEvents v) := by
+theorem tie_progAllow (v : Verdict) : Prog.runAllow progAccept progAllow v = some (allowEvents v) := by
   cases v <;> decide
 
 /-- the decision table of the rest handler over (verdict, does `next` unwind, value of the deferred condition) -/
@@ -462,7 +485,7 @@ def restTable (v : Verdict) (unwinds accept : Bool) : List SEv :=
   | .pass => [.ranReq, .mark (if accept then .succ else .fail), if unwinds then .repanicked else .returned .same]
 
 theorem tie_progRestHandler_table (v : Verdict) (unwinds accept : Bool) :
-    Prog.runRest progRestHandler v unwinds accept = some (restTable v unwinds accept) := by
+    Prog.runRest progAccept progRestHandler v unwinds accept = some (restTable v unwinds accept) := by
   cases v <;> cases unwinds <;> cases accept <;> decide
 
 /-- **`BreakerHandler`'s handler closure, every verdict and every request**: running the extracted program with the
@@ -470,11 +493,156 @@ extracted comparison `cw.Code < http.StatusInternalServerError` applied to the c
 `siteEvents .rest`: rejected → 503 written, `next` not served; admitted → the deferred resolver is installed before
 `next` is served WITH THE WRAPPER, and resolves the promise exactly once — on return and on unwinding. -/
 theorem tie_progRestHandler (v : Verdict) (q : SiteReq) :
-    Prog.runRest progRestHandler v q.panics (restAcceptCond q.code 500) = some (siteEvents .rest v q) := by
+    Prog.runRest progAccept progRestHandler v q.panics (restAcceptCond q.code 500) = some (siteEvents .rest v q) := by
   rw [tie_progRestHandler_table]
   have hc : restAcceptCond q.code 500 = Site.rest.pred q := by
     rw [tie_restAcceptCond]; simp [Site.pred]
   rw [hc]
   cases v <;> simp [restTable, siteEvents, Site.rejectRet]
+
+/-! ### meta-properties of the interpreter (`Prog.run`): what remains trusted is the token translation
+
+The interpreter is hand-written; these theorems are about it for ALL programs / states, not about one program. -/
+
+section ProgMeta
+open GoZero.C01.Prog
+
+theorem emit_defers (s : St) (e : PEv) : (s.emit e).defers = s.defers := rfl
+theorem stick_defers (s : St) : s.stick.defers = s.defers := rfl
+
+theorem foldl_emit_defers (ms : List Mark) (s : St) :
+    (ms.foldl (fun s m => s.emit (.mark m)) s).defers = s.defers := by
+  induction ms generalizing s with
+  | nil => rfl
+  | cons m ms ih => simp only [List.foldl_cons]; rw [ih]; rfl
+
+theorem callSem_defers (env : Env) (s : St) (lhs : List String) (f : String) (args : List String) :
+    (callSem env s lhs f args).defers = s.defers := by
+  unfold callSem
+  simp only [apply_ite St.defers]
+  simp [emit_defers, stick_defers, foldl_emit_defers]
+
+/-- `exec` never drops, reorders or duplicates a registered deferred body: it only pushes new ones on top -/
+theorem exec_defers_suffix (env : Env) (n : Nat) (toks : List Tok) (s : St) :
+    ∃ l, (exec env n toks s).defers = l ++ s.defers := by
+  induction n generalizing toks s with
+  | zero => exact ⟨[], by simp [exec, St.stick]⟩
+  | succ n ih =>
+    cases toks with
+    | nil => exact ⟨[], by simp [exec]⟩
+    | cons t r =>
+      unfold exec
+      split
+      · exact ⟨[], by simp⟩
+      · cases t with
+        | call lhs f args =>
+          obtain ⟨l, hl⟩ := ih r (callSem env s lhs f args)
+          exact ⟨l, by simp only [hl, callSem_defers]⟩
+        | set lhs rhs =>
+          simp only
+          split
+          · obtain ⟨l, hl⟩ := ih r { s with succ := true }; exact ⟨l, hl⟩
+          · split
+            · exact ih r s
+            · exact ⟨[], by simp [St.stick]⟩
+        | var name ty =>
+          simp only
+          split
+          · obtain ⟨l, hl⟩ := ih r { s with succ := false }; exact ⟨l, hl⟩
+          · split
+            · exact ih r s
+            · exact ⟨[], by simp [St.stick]⟩
+        | ifB c =>
+          simp only
+          split
+          · obtain ⟨l, hl⟩ := ih r (if c = "b.proba.TrueOnProba(dropRatio)" then { s with draws := s.draws + 1 } else s)
+            refine ⟨l, ?_⟩; rw [hl]; split <;> rfl
+          · obtain ⟨l, hl⟩ := ih (skipThen 0 r) (if c = "b.proba.TrueOnProba(dropRatio)" then { s with draws := s.draws + 1 } else s)
+            refine ⟨l, ?_⟩; rw [hl]; split <;> rfl
+          · refine ⟨[], ?_⟩; simp only [St.stick, List.nil_append]; split <;> rfl
+        | elseB => exact ih (skipBlock 0 r) s
+        | deferB =>
+          obtain ⟨l, hl⟩ := ih (skipBlock 0 r) { s with defers := takeBlock 0 r :: s.defers }
+          exact ⟨l ++ [takeBlock 0 r], by simp [hl]⟩
+        | endB => exact ih r s
+        | ret vals => exact ⟨[], by simp⟩
+        | retCall f args =>
+          simp only
+          split
+          · exact ⟨[], by simp [St.emit]⟩
+          · exact ⟨[], by simp [St.stick]⟩
+
+/-- **a deferred marker runs exactly once and leaves the way the function ended untouched — whatever that way is**:
+a plain return, falling off the end, or unwinding (the one ending that stands for a panic with any value and for
+`runtime.Goexit`) -/
+theorem runDefer_marker (env : Env) (s : St) (en : Option Ending) (f : String) (m : Mark)
+    (hs : s.stuck = false)
+    (hf : (f = "b.markFailure" ∧ m = .fail) ∨ (f = "b.markSuccess" ∧ m = .succ) ∨ (f = "b.markDrop" ∧ m = .drop)) :
+    runDefer env { s with ending := en } [.call [] f []]
+      = { s with evs := s.evs ++ [.mark m], ending := en, defers := [] } := by
+  rcases hf with ⟨rfl, rfl⟩ | ⟨rfl, rfl⟩ | ⟨rfl, rfl⟩ <;>
+    simp [runDefer, exec, callSem, St.emit, hs]
+
+/-- the function as a whole: the body runs, then EVERY deferred body still registered runs exactly once (one visit per
+list element), newest first; together with `exec_defers_suffix` (a registered body is never dropped or duplicated while
+the body runs) and `runDefer_marker`: a deferred marker fires exactly once on return, at the end of the body and on
+unwinding. -/
+theorem run_unfold (env : Prog.Env) (prog : List Tok) (s0 : Prog.St) :
+    Prog.run env prog s0
+      = (Prog.exec env (prog.length + 1) prog s0).defers.foldl (Prog.runDefer env)
+          { Prog.exec env (prog.length + 1) prog s0 with defers := [] } := rfl
+
+end ProgMeta
+
+/-! ### loggedThrottle and promiseWithReason: transparent wrappers, semantically -/
+
+/-- **`loggedThrottle.doReq` is `logError ∘ googleBreaker.doReq`** with `req` and `fallback` forwarded unchanged and a
+closure in the predicate's place that answers exactly what `acceptable` answers for every request result (its only
+extra is a line in the error window); and `logError` returns its argument unchanged — the breaker's own rejection, the
+request's own `ErrServiceUnavailable` (bare or wrapped), any other error, nil — and records nothing.  So
+`doReqEvents` IS the behaviour through the wrapper (`Outcome.brk/wbrk`: the request's own error comes back by identity,
+the fallback is not run by the logging layer). -/
+theorem tie_loggedDoReq :
+    loggedDoReqOuter = "lt.logError" ∧ loggedDoReqInner = "lt.internalThrottle.doReq"
+    ∧ loggedDoReqArgs = ["req", "fallback", "<closure>"]
+    ∧ (∀ (custom : Bool) (o : Outcome), Prog.runClosure loggedDoReqClosure custom o = some (acceptable custom o))
+    ∧ (∀ (errv : Prog.Val) (o : Outcome), Prog.runLogError progLogError errv o = some errv) := by
+  refine ⟨rfl, rfl, rfl, ?_, ?_⟩
+  · intro custom o; cases custom <;> cases o <;> decide
+  · intro errv o; cases errv <;> cases o <;> decide
+
+/-- `loggedThrottle.allow`: the inner `allow()` once (its drop on a rejection, nothing else), the promise wrapped, the
+error through `logError` (identity, above) -/
+theorem tie_loggedAllow (v : Verdict) :
+    Prog.runWrapper progAccept progLoggedAllow v
+      = some (marksOf (allowEvents v), ["promiseWithReason{ promise: promise, errWin: lt.errWin, }", "lt.logError(err)"]) := by
+  cases v <;> decide
+
+/-- `promiseWithReason.Accept / Reject`: exactly one resolution of the inner promise each (Accept → success,
+Reject → failure; the reason only goes to the error window) -/
+theorem tie_promiseWithReason :
+    Prog.runWrapper progAccept progPromiseAccept .pass = some ([.succ], [])
+    ∧ Prog.runWrapper progAccept progPromiseReject .pass = some ([.fail], []) := by decide
+
+/-- **every rejection is recorded exactly once, at every entry point, by the code as extracted**: running the
+extracted `accept` + `doReq` (all four `Do*` entry points, every request outcome), `accept` + `allow` (`Allow`), and
+`accept` + `allow` + the rest handler on a rejecting verdict records exactly one drop — not zero (a caller that
+forgets `markDrop`) and not two (`accept()` marking on its own as well as its caller). -/
+theorem tie_rejection_recorded_once (e : Entry) (o : Outcome) (unwinds accept : Bool) :
+    (Prog.runDoReq progAccept progDoReq .reject e o).map marksOf = some [.drop]
+    ∧ (Prog.runAllow progAccept progAllow .reject).map marksOf = some [.drop]
+    ∧ (Prog.runRest progAccept progRestHandler .reject unwinds accept).map smarksOf = some [.drop] := by
+  rw [tie_progDoReq, tie_progAllow, tie_progRestHandler_table]
+  rcases e with ⟨hf, cu⟩
+  cases hf <;> simp [doReqEvents, allowEvents, restTable, marksOf, smarksOf]
+
+/-- and an admission records nothing before the request / the promise is resolved: exactly one success-or-failure
+mark per admitted `Do*` call, none for an admitted `Allow` -/
+theorem tie_admission_recorded_once (e : Entry) (o : Outcome) :
+    (Prog.runDoReq progAccept progDoReq .pass e o).map (fun evs => (marksOf evs).length) = some 1
+    ∧ (Prog.runAllow progAccept progAllow .pass).map marksOf = some [] := by
+  rw [tie_progDoReq, tie_progAllow]
+  rcases e with ⟨hf, cu⟩
+  cases o <;> simp [doReqEvents, allowEvents, marksOf]
 
 end GoZero.C01.Tie
